@@ -17,4 +17,4 @@ CHECK_DEADLOCK FALSE
 INVARIANTS
   C01_ScratchEqual C02_AtMostOnce C02_NoNeedlessRun C03_SourcesFinal C03_ProducersDone
   C04_ErrorsExact C04_DependentsDoNotRun C04_OthersStillBuilt C04_NothingRemembered C04_TriedAgain
-  C05_Returns C05_NoChannelError C05_NoDeadlock C07_ContentAddressed C08_NothingLost C09_OnlyScopeTouched C20_StatusTruth OutcomeProbe
+  C05_Returns C05_NoChannelError C05_NoDeadlock C07_ContentAddressed C08_NothingLost C09_OnlyScopeTouched C20_StatusTruth C20_FailuresOnce OutcomeProbe
